@@ -11,6 +11,7 @@ import json
 
 from .. import envmode
 from ..kernel import Violation, Discard, cjson
+from ..kernel import quiet_print as _quiet_print
 from ..gen import gen_seq, AA, gen_special, gen_two_digit_counts, concat_collision, same_classes_other_letters
 from ..clock import SimClock
 from ..rng import RngModule, MTRandom, TapeRandom, UniformDriver
@@ -350,7 +351,7 @@ def execute(plan, ctx):
     envmode.apply(plan.get("env"), ctx)
     def sinks():
         import localcider.sequenceParameters as spm
-        spm.print = lambda *a, **k: None
+        spm.print = _quiet_print
     # the oracle is forked before anything of the history has run
     oracle = ForkOracle(sinks)
     fsbox = []
@@ -364,7 +365,7 @@ def execute(plan, ctx):
 
 
 def _run(plan, ctx, oracle, seqmod, sfp, spmod, SequenceParameters, fsbox):
-    spmod.print = lambda *a, **k: None
+    spmod.print = _quiet_print
     clock = SimClock(ctx, ctx.streams.stream("clock"), "normal")
     driver = UniformDriver(ctx.streams.stream("tape"))
     seqmod.time = clock
